@@ -6,6 +6,7 @@ constraints._integer_bounds_errors_for_expression, _cpp_integer_type_for_range).
 Spec:  Emboss/Spec/Bounds.lean (γ, evaluation over ℤ/Bool, physical leaf ranges).
 -/
 import Emboss.Lemmas.BoundsGate
+import Emboss.Lemmas.BoundsTight
 namespace Emboss.Bounds
 open ExtInt
 
@@ -109,71 +110,103 @@ example :
 /-!
 ### The invariant `_assert_integer_constraints`
 
-Full statement (NOT proved; see notes/C05.md):
-  `C05_inv_preserved : ∀ e ty, (every leaf has width ≥ 1 or unknown size) →
-     (no $upper_bound/$lower_bound of an expression with an infinite bound feeds an operator) →
-     abs e = some (.int a) → invPy a = some true`, and `abs e ≠ none`.
-Proved below: the invariant at every leaf (all kinds, all sizes, unknown size),
-constants and bound functions (`_partial`), and that the hypothesis about infinite bounds
-is necessary: four model-level crashes, each replayed on the real code (open findings).
-On every run the correspondence evaluates `invPy` on **every** annotation of every real
-IR node (`INV` op), so a reachable annotation violating the invariant is reported.
+`invPy` is the assert block of `_assert_integer_constraints` as written.  The inductive
+invariant is `InvOk a := invPy a = some true ∧ CanonMv a ∧ FiniteConst a`
+(Spec/BoundsInv.lean, a decidable `Bool`):
+* `FiniteConst` — no "constant infinity" (`modulus = modular_value = "infinity"`): the
+  crash root F8, produced only by `$upper_bound`/`$lower_bound` of an argument with an
+  infinite bound; it passes the asserts and then crashes `+ - * ?:`;
+* `CanonMv` — `0 ≤ modular_value < modulus`: what every transfer function produces
+  (`% modulus`) and what the asserts force whenever one bound is finite; needed because the
+  asserts never look at `modular_value` of a value without finite bounds
+  (`C05_inv_needs_canonical_counterexample`).
+Proved: every transfer function maps `InvOk` arguments to a result — it does **not raise** —
+that is `InvOk` again (`C05_inv_transfer`, `C05_inv_transfer_max`), leaves and literals
+satisfy it (`C05_inv_leaves`), hence every annotation `abs` attaches to a subexpression
+of an expression without an infinite `$upper_bound`/`$lower_bound` (`FiniteBounds`,
+decidable) passes `_assert_integer_constraints` (`C05_inv_preserved`).  The hypothesis
+is necessary (`C05_inv_preserved_counterexample`, `C05_crash_counterexample` = open
+findings).  Not stated: "`abs e ≠ none` for every well-typed `e`" — the integer transfer
+functions never raise (above), but a comparison raises `KeyError` through
+`ir_util.constant_value` (`C05_crash_counterexample`, third conjunct: open finding), and
+the model has no type checker to exclude ill-typed operands.
 -/
 
-theorem two_pow_ge_two (n : Nat) (h : 1 ≤ n) : (2 : Int) ≤ 2 ^ n := by
-  induction n with
-  | zero => omega
-  | succ k ih =>
-    rcases Nat.eq_zero_or_pos k with rfl | hk
-    · simp
-    · have := ih hk
-      rw [Int.pow_succ]; omega
+/-- **Every transfer function preserves the invariant and does not raise.**
+`+`, `-`, `*` (const×const, const×var, var×var), `?:` with an unknown condition,
+`$upper_bound`/`$lower_bound` of a finite bound. -/
+theorem C05_inv_transfer (l r : AVal) (hl : InvOk l = true) (hr : InvOk r = true) :
+    (∀ isSub, ∃ a, additive isSub l r = some a ∧ InvOk a = true) ∧
+    (∃ a, multiplicative l r = some a ∧ InvOk a = true) ∧
+    (∃ a, choiceHull l r = some a ∧ InvOk a = true) ∧
+    (∀ up c, (if up then l.max else l.min) = .fin c → InvOk (boundFn up l) = true) := by
+  have hl' := InvS_of_InvOk hl
+  have hr' := InvS_of_InvOk hr
+  refine ⟨fun s => ?_, ?_, ?_, ?_⟩
+  · obtain ⟨a, h1, h2⟩ := additive_inv s hl' hr'
+    exact ⟨a, h1, InvOk_of_InvS h2⟩
+  · obtain ⟨a, h1, h2⟩ := multiplicative_inv hl' hr'
+    exact ⟨a, h1, InvOk_of_InvS h2⟩
+  · obtain ⟨a, h1, h2⟩ := choiceHull_inv hl' hr'
+    exact ⟨a, h1, InvOk_of_InvS h2⟩
+  · intro up c h
+    rw [boundFn_inv h]; exact InvOk_const c
 
-/-- the invariant holds of the annotation of every physical leaf — any kind, any size
-    (sizes < 1 and unknown sizes give the unbounded annotation since fix 0237141) -/
-theorem C05_inv_preserved_partial (k : LeafKind) (size : Option Int) :
-    invPy (leafRange k size) = some true ∧ invPy staticSizeRange = some true ∧
-    (∀ v, invPy (constRange v) = some true) ∧
-    (∀ a up, (∃ c, (if up then a.max else a.min) = .fin c) → invPy (boundFn up a) = some true) := by
-  refine ⟨?_, by decide, fun v => by simp [invPy, constRange], ?_⟩
-  · unfold leafRange
-    cases size with
-    | none => simp only; decide
-    | some s =>
-      simp only
-      split
-      · decide
-      · rename_i hs
-        have hn : 1 ≤ s.toNat := by omega
-        have h2 := two_pow_ge_two s.toNat hn
-        generalize s.toNat = n at *
-        cases k
-        · simp only [invPy]
-          simp
-          rw [if_neg (by omega)]; simp; omega
-        · have h3 : (1 : Int) ≤ 2 ^ (n - 1) := Int.pow_pos (by omega)
-          simp only [invPy]
-          simp
-          rw [if_neg (by omega)]; simp; omega
-        · have h3 : (1 : Int) ≤ 10 ^ (n / 4) := Int.pow_pos (by omega)
-          have h4 : (1 : Int) ≤ 2 ^ (n % 4) := Int.pow_pos (by omega)
-          have h5 : (2 : Int) ≤ 10 ^ (n / 4) * 2 ^ (n % 4) := by
-            rcases Nat.lt_or_ge n 4 with hlt | hge
-            · have e1 : n / 4 = 0 := by omega
-              have e2 : n % 4 = n := by omega
-              rw [e1, e2]; simpa using h2
-            · obtain ⟨j, hj⟩ : ∃ j, n / 4 = j + 1 := ⟨n / 4 - 1, by omega⟩
-              have h6 : (1 : Int) ≤ 10 ^ j := Int.pow_pos (by omega)
-              rw [hj, Int.pow_succ]
-              have : (10 : Int) ≤ 10 ^ j * 10 := by omega
-              calc (2 : Int) ≤ 10 * 1 := by omega
-                _ ≤ 10 ^ j * 10 * 2 ^ (n % 4) := Int.mul_le_mul this h4 (by omega) (by omega)
-          simp only [invPy]
-          simp
-          generalize (10 : Int) ^ (n / 4) * 2 ^ (n % 4) = q at *
-          rw [if_neg (by omega)]; simp; omega
-  · intro a up ⟨c, hc⟩
-    simp [invPy, boundFn, hc]
+/-- non-vacuity: the var×var example of the soundness theorem, on the annotations -/
+example :
+    let l : AVal := ⟨.fin 7, .fin 49147, .fin 12, .fin 7⟩
+    let r : AVal := ⟨.fin (-5105), .fin 5115, .fin 20, .fin 15⟩
+    InvOk l = true ∧ InvOk r = true ∧
+    multiplicative l r = some ⟨.fin (-250895435), .fin 251386905, .fin 20, .fin 5⟩ := by
+  decide +kernel
+
+/-- **`$max` preserves the invariant and does not raise** (any positive number of arguments). -/
+theorem C05_inv_transfer_max (args : List AVal) (hne : args ≠ [])
+    (h : ∀ a ∈ args, InvOk a = true) : ∃ r, maxFn args = some r ∧ InvOk r = true := by
+  obtain ⟨r, h1, h2⟩ := maxFn_inv hne (fun a ha => InvS_of_InvOk (h a ha))
+  exact ⟨r, h1, InvOk_of_InvS h2⟩
+
+example : maxFn [⟨.fin 7, .fin 247, .fin 12, .fin 7⟩, constRange 500] = some (constRange 500) ∧
+    maxFn [⟨.fin 7, .fin 247, .fin 12, .fin 7⟩, ⟨.fin 15, .fin 95, .fin 20, .fin 15⟩] =
+      some ⟨.fin 15, .fin 247, .fin 4, .fin 3⟩ := by decide +kernel
+
+/-- **The invariant holds at the leaves**: every physical leaf — any kind, any size, sizes
+< 1 and unknown sizes included (unbounded annotation since fix 0237141) —,
+`$static_size_in_bits`, integer literals. -/
+theorem C05_inv_leaves (k : LeafKind) (size : Option Int) (v : Int) :
+    InvOk (leafRange k size) = true ∧ InvOk staticSizeRange = true ∧
+    InvOk (constRange v) = true :=
+  ⟨leafRange_invOk k size, by decide, InvOk_const v⟩
+
+/-- **`_assert_integer_constraints` holds of every annotation** the analysis attaches to an
+expression that contains no `$upper_bound`/`$lower_bound` of an infinite bound
+(`FiniteBounds`, the decidable hypothesis excluding F8) and whose preset
+`$logical_value` annotations satisfy the invariant (`GivenOk`); by `abs`'s recursion the same
+holds at every subexpression.  The conclusion is the strengthened, inductive invariant. -/
+theorem C05_inv_preserved (e : Expr) (hg : GivenOk e = true) (hf : FiniteBounds e = true)
+    (a : AVal) (h : abs e = some (.int a)) : invPy a = some true ∧ InvOk a = true := by
+  have h1 : InvOk a = true := InvOk_of_InvS (inv_aux e hg hf _ h)
+  refine ⟨?_, h1⟩
+  simp only [InvOk, Bool.and_eq_true, beq_iff_eq] at h1
+  exact h1.1.1
+
+/-- non-vacuity: the hypotheses hold of a non-trivial expression with `$upper_bound`,
+    `?:`, `$max` and a var×var product, and `abs` returns -/
+example :
+    let e : Expr := .bin .mul
+      (.bin .add (.bin .mul (.ileaf 0 .uint (some 12)) (.const 12)) (.upper (.ileaf 2 .bcd (some 7))))
+      (.max [.choice (.bleaf 0) (.ileaf 1 .sint (some 9)) (.const 15), .const 3])
+    GivenOk e = true ∧ FiniteBounds e = true ∧
+    abs e = some (.int ⟨.fin 237, .fin 12550845, .fin 1, .fin 0⟩) := by
+  decide +kernel
+
+/-- **`invPy` alone is not inductive**: an annotation without finite bounds passes the
+asserts whatever its `modular_value` is; `+` then raises.  (Never produced by the code:
+`CanonMv` is part of `InvOk`, which is what `C05_inv_preserved` proves.) -/
+theorem C05_inv_needs_canonical_counterexample :
+    let a : AVal := ⟨.negInf, .posInf, .fin 3, .posInf⟩
+    invPy a = some true ∧ FiniteConst a = true ∧ additive false a (constRange 1) = none := by
+  decide +kernel
 
 /-- **F8: the invariant is not preserved without the finiteness hypothesis.**
 `$upper_bound(x)` of an unbounded `x` is the "constant infinity"; it *passes*
@@ -199,26 +232,42 @@ theorem C05_crash_counterexample :
 /-!
 ### Tightness
 
-Full statement (NOT proved; tested on every run by corner enumeration, see
-harness/corr/C05.py `oracle_expression`):
-  `C05_tight_linear : ∀ e over {+,−,×,$max, constants, leaves of known size} in which every
-     leaf occurs at most once, abs e = some (.int a) → a.min = .fin lo → a.max = .fin hi →
-     (∃ ρ, EnvOk ρ e ∧ eval ρ e = some (.int lo)) ∧ (∃ ρ, EnvOk ρ e ∧ eval ρ e = some (.int hi))`.
-Proved: the base case (every physical leaf attains both ends of its inferred range) and
-the counterexample showing that the property's tightness clause as written ("for
-expressions without repeated variables the interval is attained") is false for `?:`.
+`LinOnce` (Spec/BoundsInv.lean) is the fragment of the property statement's tightness
+clause: expressions over `+`, `-`, `*`, `$max`, integer literals and physical integer leaves
+of known size ≥ 1 in which every leaf occurs at most once (operands of every operator
+mention disjoint leaves).  It contains the linear forms `c0 + c1*x1 + … + cn*xn`; products of
+distinct leaves are included because the four-corner extrema are attained when the factors
+vary independently.  `?:` is *not* in the fragment, and cannot be:
+`C05_tight_choice_counterexample`.
 -/
 
-theorem C05_tight_linear_partial (k : LeafKind) (s : Int) (hs : 1 ≤ s) (id : Nat) :
-    ∃ lo hi, (leafRange k (some s)).min = .fin lo ∧ (leafRange k (some s)).max = .fin hi ∧
-      InPhys k (some s) lo ∧ InPhys k (some s) hi := by
-  have hn : ¬ s < 1 := by omega
-  have h2 := two_pow_ge_two s.toNat (by omega)
-  have h3 : (1 : Int) ≤ 2 ^ (s.toNat - 1) := Int.pow_pos (by omega)
-  have h4 : (1 : Int) ≤ 10 ^ (s.toNat / 4) * 2 ^ (s.toNat % 4) :=
-    Int.mul_pos (Int.pow_pos (by omega)) (Int.pow_pos (by omega))
-  cases k <;> simp only [leafRange, InPhys, hn, if_false] <;>
-    refine ⟨_, _, rfl, rfl, ?_, ?_⟩ <;> constructor <;> omega
+/-- **Tightness.**  For every expression of the single-occurrence fragment the analysis
+returns (does not raise), both inferred bounds are finite, and each is attained: there is
+an environment whose leaves hold values of their physical types under which the
+expression evaluates to the inferred minimum, and one for the inferred maximum. -/
+theorem C05_tight_linear (e : Expr) (h : LinOnce e = true) :
+    ∃ a lo hi, abs e = some (.int a) ∧ a.min = .fin lo ∧ a.max = .fin hi ∧
+      (∃ ρ, EnvOk ρ e ∧ eval ρ e = some (.int lo)) ∧
+      (∃ ρ, EnvOk ρ e ∧ eval ρ e = some (.int hi)) := by
+  obtain ⟨a, habs, _, lo, hi, h1, h2, h3, h4⟩ := tight_aux e h
+  exact ⟨a, lo, hi, habs, h1, h2, h3, h4⟩
+
+/-- non-vacuity: `$max(3*a0 - a1, a2*a3 + 7, 100)` over `UInt:8 a0`, `Int:8 a1`, `Bcd:8 a2`,
+    `Int:4 a3` is in the fragment; its inferred range is 100 … 893 -/
+example :
+    let e : Expr := .max [
+      .bin .sub (.bin .mul (.const 3) (.ileaf 0 .uint (some 8))) (.ileaf 1 .sint (some 8)),
+      .bin .add (.bin .mul (.ileaf 2 .bcd (some 8)) (.ileaf 3 .sint (some 4))) (.const 7),
+      .const 100]
+    LinOnce e = true ∧ abs e = some (.int ⟨.fin 100, .fin 893, .fin 1, .fin 0⟩) := by
+  decide +kernel
+
+/-- a repeated variable leaves the fragment (and `x - x` is indeed not tight: inferred
+    −255 … 255, value always 0) -/
+example : LinOnce (.bin .sub (.ileaf 0 .uint (some 8)) (.ileaf 0 .uint (some 8))) = false ∧
+    abs (.bin .sub (.ileaf 0 .uint (some 8)) (.ileaf 0 .uint (some 8))) =
+      some (.int ⟨.fin (-255), .fin 255, .fin 1, .fin 0⟩) := by
+  decide +kernel
 
 /-- **F12: `?:` with a tautological, non-folded condition is not tight.**
 `$upper_bound(x >= 0 ? 1 : 100)` over `UInt:8 x` is 100; `x` occurs once; the inner
